@@ -103,17 +103,40 @@ def _moved_locals(op):
     return []
 
 
-def guard_flow(B, acquire_bb):
+def awaited_guard_start(B, poll_bb):
+    """For `let g = m.lock().await`: the block on the Ready edge of the poll at poll_bb, where the
+    guard is moved out of the Poll value.  Returns (block, holder local) or None."""
+    t = B.blocks[poll_bb]['t']
+    sw = t.get('t')
+    if sw is None:
+        return None
+    sd = B.switch_on_discr(sw)
+    if not sd:
+        return None
+    ready = [b for v, b in sd[2] if v == 0]
+    if not ready:
+        return None
+    cur = ready[0]
+    for _ in range(3):
+        tt = B.blocks[cur]['t']
+        if B.blocks[cur]['s'] or tt['k'] not in ('falseedge', 'goto'):
+            break
+        cur = tt['t']
+    return cur, t['dst']['l']
+
+
+def guard_flow(B, acquire_bb, start=None, holders=None):
     """Forward must-dataflow of 'which locals hold the guard returned by the call
     terminating acquire_bb'.  Returns (state_in, state_before_term): dict bb -> frozenset
     of holder locals (missing key = not reachable from the acquisition).
     The guard moves with `move` operands (assignments, aggregates, call arguments
     -> call destination) and dies at Drop terminators / mem::drop of a holder."""
     t0 = B.blocks[acquire_bb]['t']
-    start = t0.get('t')
+    if start is None:
+        start = t0.get('t')
     if start is None:
         return {}, {}
-    init = frozenset([t0['dst']['l']])
+    init = frozenset(holders if holders is not None else [t0['dst']['l']])
     state_in = {start: init}
     before_term = {}
     work = [start]
